@@ -82,7 +82,13 @@ def run(name, props, scratch=True):
         rc, o = sh("git -C /repo status --porcelain --untracked-files=no")
         if o.strip(): print("/repo not clean", o); return 1
     rc, o = sh("git -C %s apply %s/patch.diff" % (target, dst))
-    if rc: print("patch does not apply", o); return 1
+    if rc:
+        # the tree moved on since the patch was written (later fix: commits): use the hand-rebased
+        # version if one is stored next to it
+        rb = os.path.join(dst, "patch.rebased.diff")
+        if os.path.exists(rb):
+            rc, o = sh("git -C %s apply %s" % (target, rb))
+        if rc: print("patch does not apply", o); return 1
     results = {}
     try:
         for p in props:
